@@ -101,3 +101,68 @@ Proof.
   destruct (w buf) as [b [[n|]|k]] eqn:Hr; try reflexivity.
   cbn [c03_step s_o]. eapply encode_call_pec; eassumption.
 Qed.
+
+(* ---------- a successful encode implies the buffer was long enough ---------- *)
+Lemma wr_length off d buf b : wr off d buf = (b, Val tt) -> length b = length buf.
+Proof. unfold wr. destruct (off + length d <=? length buf)%nat eqn:E; [|discriminate].
+  intros H; injection H as <-. apply Nat.leb_le in E.
+  rewrite !app_length, firstn_length_le, skipn_length by lia. lia. Qed.
+
+Lemma packet_to_raw_fits smb tr bh hdr data buf out n :
+  packet_to_raw smb tr bh hdr data buf = (out, Val n) -> (n <= length buf)%nat.
+Proof.
+  unfold packet_to_raw, wbind.
+  destruct (wr 0 smb buf) as [b1 [[]|k1]] eqn:W1; [|discriminate].
+  destruct (wr 4 tr b1) as [b2 [[]|k2]] eqn:W2; [|discriminate].
+  destruct (slice_from b2 8) as [s|k]; cbn [bind]; [|discriminate].
+  unfold body_to_raw, wbind.
+  destruct (wr 8 bh b2) as [b3 [[]|k3]] eqn:W3; [|discriminate].
+  assert ((exists b4, (match hdr with Some h => wr (8 + 1) h | None => wret tt end) b3 = (b4, Val tt) /\ length b4 = length b3)
+          \/ (exists b4 k, (match hdr with Some h => wr (8 + 1) h | None => wret tt end) b3 = (b4, Panic k))) as [[b4 [E4 L4]]|[b4 [k E4]]].
+  { destruct hdr as [h|].
+    - destruct (wr (8 + 1) h b3) as [b4 [[]|k4]] eqn:W4; [left; exists b4; split; [reflexivity|eapply wr_length; eassumption]|right; eauto].
+    - left. exists b3. split; reflexivity. }
+  2:{ rewrite E4. discriminate. }
+  rewrite E4.
+  destruct (wr (8 + 1 + opt_len hdr) data b4) as [b5 [[]|k5]] eqn:W5; [|discriminate].
+  unfold wret.
+  generalize (8 + body_len hdr data)%nat. intros size.
+  destruct (slice b5 0 size) as [pre|k6]; [|discriminate].
+  destruct (size <? length b5)%nat eqn:Hlt; [|discriminate].
+  intros E. injection E as E1 E2. subst n. apply Nat.ltb_lt in Hlt.
+  apply wr_length in W1, W2, W3, W5. lia.
+Qed.
+
+Definition fit_writer (w : W (option nat)) : Prop :=
+  forall buf out n, w buf = (out, Val (Some n)) -> (n <= length buf)%nat.
+Lemma fw_gen ovf addr dest mt hdr data : fit_writer (generate_packet_bytes ovf addr dest mt hdr data).
+Proof. intros buf out n. unfold generate_packet_bytes, wbind, wlift, wret.
+  destruct (body_header_new false mt) as [bh|k]; [|discriminate].
+  destruct (MAX_PACKET_LEN <? packet_len hdr data)%nat; [discriminate|].
+  destruct (packet_to_raw _ _ _ _ _ buf) as [b [m|k]] eqn:Hp; [|discriminate].
+  intros E. inversion E; subst. eapply packet_to_raw_fits. exact Hp. Qed.
+Lemma fw_none : fit_writer (wret None).
+Proof. intros buf out n. unfold wret. discriminate. Qed.
+Lemma fw_panic k : fit_writer (wlift (Panic k)).
+Proof. intros buf out n. unfold wlift. discriminate. Qed.
+Lemma fw_if (b : bool) w1 w2 : fit_writer w1 -> fit_writer w2 -> fit_writer (if b then w1 else w2).
+Proof. destruct b; auto. Qed.
+Ltac fw := repeat first [ apply fw_gen | apply fw_none | apply fw_panic | apply fw_if ].
+
+Lemma encode_call_fits ovf c h id a ls w : encode_call ovf c h id a ls = Some w -> fit_writer w.
+Proof.
+  unfold encode_call. intros E.
+  repeat match type of E with
+         | (match ?x with _ => _ end) = _ => destruct x; try discriminate
+         | (if ?x then _ else _) = _ => destruct x; try discriminate
+         end;
+  inversion E; subst w; clear E;
+  unfold control_packet, req_set_endpoint_id, req_get_endpoint_id, req_get_endpoint_uuid,
+    req_get_mctp_version_support, req_get_message_type_suport, req_get_vendor_defined_message_support,
+    req_resolve_endpoint_id, req_allocate_endpoint_ids, req_routing_information_update,
+    req_get_routing_table_entries, req_prepare_for_endpoint_discovery, req_endpoint_discovery,
+    req_discovery_notify, req_get_network_id, req_query_hop, req_resolve_uuid, req_query_rate_limit,
+    req_vendor_defined, resp_set_endpoint_id, resp_get_endpoint_id, resp_get_endpoint_uuid,
+    resp_get_mctp_version_support, resp_get_message_type_suport, resp_get_vendor_defined_message_support,
+    control_packet; fw.
+Qed.
